@@ -68,6 +68,7 @@ type c10App struct {
 	news   map[string]int
 	errs   map[string]int
 	errAll []string
+	hold   func(remote string, tok []byte) // burst: runs: called by every handler before it logs the request
 }
 
 func newC10App() *c10App {
@@ -109,6 +110,9 @@ func (a *c10App) recovered() {
 }
 
 func (a *c10App) logCall(remote string, m *mux.Message, body []byte) {
+	if a.hold != nil {
+		a.hold(remote, m.Token())
+	}
 	a.mu.Lock()
 	a.hlog[remote] = append(a.hlog[remote], c10HCall{tok: append([]byte{}, m.Token()...), code: int(m.Code()), pay: append([]byte{}, body...)})
 	a.mu.Unlock()
@@ -369,6 +373,10 @@ type c10UDPServer struct {
 }
 
 func c10StartUDP(app *c10App, listen string, maxsize int) (*c10UDPServer, error) {
+	return c10StartUDPOpts(app, listen, maxsize)
+}
+
+func c10StartUDPOpts(app *c10App, listen string, maxsize int, extra ...udpServer.Option) (*c10UDPServer, error) {
 	l, err := coapNet.NewListenUDP("udp4", listen)
 	if err != nil {
 		return nil, err
@@ -390,6 +398,7 @@ func c10StartUDP(app *c10App, listen string, maxsize int) (*c10UDPServer, error)
 	if maxsize > 0 {
 		opts = append(opts, options.WithMaxMessageSize(uint32(maxsize)))
 	}
+	opts = append(opts, extra...)
 	srv := &c10UDPServer{app: app, l: l, serveRet: make(chan error, 1)}
 	srv.s = udp.NewServer(opts...)
 	srv.port = l.LocalAddr().(*net.UDPAddr).Port
@@ -685,7 +694,7 @@ func runC10(a runArgs) error {
 	e := NewEmitter("C10", "Server.Run")
 	e.Preamble = "From GoCoap Require Import Base.Bytes Dedup.Model Dedup.Spec Server.Model Server.Spec.\nFrom GoCoap Require Monitor.Model Server.KeepAlive.\nFrom GoCoap Require Import Server.Addr."
 	e.ShardSize = 24
-	e.Rule = "a case is one run of a real server on loopback sockets (udp.NewServer + mux router): 2-4 well-behaved raw-socket clients run scripted CON/NON GET/POST/PUT/DELETE sequences (distinct tokens and payload tags, some retransmissions) while 1-4 adversarial peers send malformed datagrams (truncated header, bad version, TKL 9-15, truncated token/option, nibble 15, option number overflow, marker without payload, random bytes), oversize datagrams, unsolicited ACK/RST/responses and valid requests reusing a good client's token, each burst followed by a ping whose Reset is awaited. Non-trivial = at least two well-behaved clients and at least one datagram the server refused. Handshake families (tls:/dtls: cases): tcp server on a TLS listener (self-signed ECDSA certificate made at run time) and dtls server with PSK; 1-2 well-behaved clients connect and get half of their answers, then 2-5 adversarial peers connect one after the other (send nothing / 3 bytes of a ClientHello / garbage / close at once / full handshake then silence; DTLS: ClientHello never followed up, garbage behind a handshake record header, ClientHello then socket closed, datagram the accept filter drops), then 1-3 more well-behaved clients connect; every run has a peer that never finishes its handshake; all such cases count as non-trivial. Round-2 families: discf: cases = discovery runs in which some DiscoveryRequest calls cannot send their datagram (IPv6 destination on an IPv4 socket, datagram above the UDP limit to a unicast address or a multicast group), followed with preference by responses carrying the same token and by new requests with it (non-trivial = at least one such call); ka: cases = udp/tcp servers with options.WithKeepAlive and 2-4 peers (answering pings, connect-and-stall, chatty, late) on a virtual clock, each peer observed with the others and alone (non-trivial = at least one ping sent and at least one peer dropped by keep-alive). Round-3 families (the keys of the two tables): keyrep: cases = getConnKey and the wildcard helpers on address pairs whose IPv4 addresses come as 4 bytes or as 16 bytes, nil / unspecified / multicast / IPv6 / zones included (non-trivial = the two pairs are the same pair in two representations); rep: cases = a live udp server bound to 127.0.0.1, 2-3 peers on AF_INET sockets sending requests, the application calling Server.NewConn with the peer address from the socket, from net.ResolveUDPAddr or from net.IPv4() (with or without the local address in either form) and sending requests over the connection returned, which the peer answers (non-trivial = at least one look-up with a 16-byte IP); tokkey: cases = Token.Hash() of tokens, among them families that differ only in zero bytes in front; disctok: cases = discovery runs whose token pool is one byte string with 0, 1, 2 and 8-len zero bytes in front (plus 00, 00 00 and, for responses, the empty token). Round-4 families (the decode loop of a pooled message): pool: cases = 4-7 received messages (runs of 8..2^11+8, thorough 2^12+8, one-byte options with delta 1/2/0 and length 0, around the powers of two, optionally behind Uri-Path and followed by a payload, a truncated option or a reserved nibble; plain requests; the malformed classes above) handed to UnmarshalWithDecoder of one pooled message (Reset in between, sometimes a new message) through a decoder that wraps the real udp/tcp coder, records cap(m.Options) at every attempt and cuts the loop after len+4 attempts (non-trivial = at least one message needed more than one attempt); udpopt:/tcpopt: cases = the live udp/tcp servers of the udp:/tcp: cases with adversaries that send such messages."
+	e.Rule = "a case is one run of a real server on loopback sockets (udp.NewServer + mux router): 2-4 well-behaved raw-socket clients run scripted CON/NON GET/POST/PUT/DELETE sequences (distinct tokens and payload tags, some retransmissions) while 1-4 adversarial peers send malformed datagrams (truncated header, bad version, TKL 9-15, truncated token/option, nibble 15, option number overflow, marker without payload, random bytes), oversize datagrams, unsolicited ACK/RST/responses and valid requests reusing a good client's token, each burst followed by a ping whose Reset is awaited. Non-trivial = at least two well-behaved clients and at least one datagram the server refused. Handshake families (tls:/dtls: cases): tcp server on a TLS listener (self-signed ECDSA certificate made at run time) and dtls server with PSK; 1-2 well-behaved clients connect and get half of their answers, then 2-5 adversarial peers connect one after the other (send nothing / 3 bytes of a ClientHello / garbage / close at once / full handshake then silence; DTLS: ClientHello never followed up, garbage behind a handshake record header, ClientHello then socket closed, datagram the accept filter drops), then 1-3 more well-behaved clients connect; every run has a peer that never finishes its handshake; all such cases count as non-trivial. Round-2 families: discf: cases = discovery runs in which some DiscoveryRequest calls cannot send their datagram (IPv6 destination on an IPv4 socket, datagram above the UDP limit to a unicast address or a multicast group), followed with preference by responses carrying the same token and by new requests with it (non-trivial = at least one such call); ka: cases = udp/tcp servers with options.WithKeepAlive and 2-4 peers (answering pings, connect-and-stall, chatty, late) on a virtual clock, each peer observed with the others and alone (non-trivial = at least one ping sent and at least one peer dropped by keep-alive). Round-3 families (the keys of the two tables): keyrep: cases = getConnKey and the wildcard helpers on address pairs whose IPv4 addresses come as 4 bytes or as 16 bytes, nil / unspecified / multicast / IPv6 / zones included (non-trivial = the two pairs are the same pair in two representations); rep: cases = a live udp server bound to 127.0.0.1, 2-3 peers on AF_INET sockets sending requests, the application calling Server.NewConn with the peer address from the socket, from net.ResolveUDPAddr or from net.IPv4() (with or without the local address in either form) and sending requests over the connection returned, which the peer answers (non-trivial = at least one look-up with a 16-byte IP); tokkey: cases = Token.Hash() of tokens, among them families that differ only in zero bytes in front; disctok: cases = discovery runs whose token pool is one byte string with 0, 1, 2 and 8-len zero bytes in front (plus 00, 00 00 and, for responses, the empty token). Round-4 families (the decode loop of a pooled message): pool: cases = 4-7 received messages (runs of 8..2^11+8, thorough 2^12+8, one-byte options with delta 1/2/0 and length 0, around the powers of two, optionally behind Uri-Path and followed by a payload, a truncated option or a reserved nibble; plain requests; the malformed classes above) handed to UnmarshalWithDecoder of one pooled message (Reset in between, sometimes a new message) through a decoder that wraps the real udp/tcp coder, records cap(m.Options) at every attempt and cuts the loop after len+4 attempts (non-trivial = at least one message needed more than one attempt); udpopt:/tcpopt: cases = the live udp/tcp servers of the udp:/tcp: cases with adversaries that send such messages; burst: cases = a live udp server with ReceivedMessageQueueSize 1, 4, 16 (default) or 32 and 1-3 peers that send, interleaved and back to back, more NON requests than the queue holds (some peers fewer) while the handler of the very first request is held until the read loop is seen waiting inside Conn.Process or the socket is seen drained; observed per remote address: the order in which its requests reached the application."
 	rng := NewRng(a.seed)
 	if v, err := strconv.Atoi(os.Getenv("HX_C10_HS_RUNS")); err == nil && v > 0 && a.only == "" {
 		// development aid: stress the handshake families alone
@@ -703,6 +712,9 @@ func runC10(a runArgs) error {
 		}
 		if c10PoolFamily(e, a, m) {
 			return e.Flush(a.out)
+		}
+		if err := c10BurstFamily(e, a, m); err != nil {
+			return err
 		}
 	}
 	runs := 24
